@@ -37,7 +37,7 @@ func realChecks(c *core.Ctx, b *Built, p *plan, rs []VsResult, fs *findings) err
 			fs.add(r.Cfg, f.Class+" (unrewritten code, real runtime)", f.Detail, map[string]interface{}{"cfg": r.Cfg, "where": "unrewritten generated code on the real Go runtime"})
 		}
 		v, ok := first[r.ID]
-		if !ok || v.Complete == 0 || len(r.Failures) > 0 {
+		if !ok || v.Complete == 0 || len(r.Failures) > 0 || r.Runs == 0 {
 			continue
 		}
 		checked++
